@@ -259,7 +259,7 @@ def run_check(prop: Prop, tier, seed, replay=None):
             rc3, impl_r, err3 = C.run_lines(C.harness_bin(True), dbl + lines, watchdog=prop.watchdog_s)
             impl_r = impl_r[len(dbl):]
             for i in range(min(len(impl_r), n)):
-                if prop.observable(impl_r[i]) != prop.observable(model[i]):
+                if prop.observable(impl_r[i]) != prop.observable(model[i]) and not prop.corr_excused(cases[i], impl_r[i], model[i]):
                     corr_fail.append((i, cases[i], "release:" + impl_r[i], model[i], "-"))
                 parts = drv[i].split("\t")
                 s = parts[1] if len(parts) > 1 else "-"
